@@ -25,6 +25,7 @@ type C19Scenario struct {
 	Msgs   []MsgSpec       `json:"msgs,omitempty"`
 	Conn   sim.ConnFaults  `json:"conn,omitempty"`
 	Step   string          `json:"step"` // label of the injected failure (for the tag)
+	DialFail int           `json:"dialFail,omitempty"`
 	Sched  uint64          `json:"sched"`
 }
 
@@ -111,6 +112,20 @@ func (p *c19) build(seed uint64, tier string) []C19Scenario {
 						{"NOOP", "NOOP", 1, nil}, {"MAIL", "MAIL", 1, nil}, {"RCPT-1", "RCPT", 1, nil}, {"RCPT-2", "RCPT", 2, nil},
 						{"DATA", "DATA", 1, nil}, {"EOD", "EOD", 1, nil}, {"RSET", "RSET", 1, nil}, {"NOOP-2", "NOOP", 2, nil}, {"QUIT", "QUIT", 1, nil},
 					}...)
+				}
+				if usesTLS {
+					// connection made through the fallback port after a failed first dial
+					for _, st := range steps {
+						if st.only != nil && !st.only() {
+							continue
+						}
+						s := base()
+						s.Step = "fallback:" + st.label
+						s.Client.FallbackPort, s.DialFail = true, 1
+						s.Client.TLSPolicy = "opportunistic" // WithTLSPortPolicy sets a fallback port for this policy only
+						s.Server.Rules = []refsmtpd.Rule{{Verb: st.verb, Nth: st.nth, Action: failKinds[2]}}
+						add(s)
+					}
 				}
 				for _, st := range steps {
 					if st.only != nil && !st.only() {
@@ -200,7 +215,7 @@ func (p *c19) Exec(t *testing.T, scAny any) Outcome {
 	var call *CallRec
 	var quitSeen bool
 	res := RunSim(t, sc.Sched, sim.Policy{Kind: "random"}, 0, time.Hour, func(k *sim.Kernel) (func(), func()) {
-		env = &NetEnv{K: k, Srv: refsmtpd.New(k, sc.Server, TLSMat), Faults: []sim.ConnFaults{sc.Conn}, Host: sc.Client.host()}
+		env = &NetEnv{K: k, Srv: refsmtpd.New(k, sc.Server, TLSMat), Faults: []sim.ConnFaults{sc.Conn}, Host: sc.Client.host(), DialFail: sc.DialFail}
 		return func() {
 			c, err := BuildClient(sc.Client, env.Dial, nil)
 			if err != nil {
